@@ -269,6 +269,9 @@ func VerifyFunc(prog *Program, fi *FuncInfo, tier string) (res *UnitResult) {
 		case oReturn, oNormal:
 			retOrd++
 			u.paths++
+			if o.kind == oNormal {
+				u.runDefers(o.st)
+			}
 			u.checkPost(o.st, o.vals, retOrd)
 		default:
 			u.fail("break/continue outside loop in %s", fi.Key)
